@@ -16,9 +16,10 @@ except Exception:  # pragma: no cover
 LD = np.longdouble
 TWO_PI_LD = LD(2) * np.arccos(LD(-1))
 EPS = float(np.finfo(float).eps)
-# forward-error constant; the largest kernel deviation seen on 285k hostile values of the unchanged tree was
-# 6x the bound with factor 32, so 512 leaves ~85x margin over the worst observed
-TOL_FACTOR = 256
+# safety factor on the measured round-off spread (see marginal()). Calibration on the repaired tree: over 28.8k
+# hostile values the kernel's deviation never exceeded 0.21 x (floor + 1024 spread); over 285k values it never
+# exceeded 2.2 x (floor + 64 spread), i.e. 0.14 x this tolerance.
+TOL_FACTOR = 1024
 
 
 # ---------------------------------------------------------------- O-kepler
@@ -167,7 +168,7 @@ def marginal(lin, z, P_day, e, s, want_post=True, varK=None, jitter=True):
         ll = -(chi2 + logdet + n * mp.log(2 * mp.pi)) / 2
         # tolerance = measured round-off of the kernel's own algorithm (Woodbury + LU in float64, re-implemented
         # here) under 1-ulp input perturbations, times a safety factor, plus its bias against the exact value
-        tol = 1e-10 + 1e-10 * abs(float(ll)) + max(TOL_FACTOR * spread, tol_bound) + 8 * abs(alg - float(ll))
+        tol = 1e-10 + 1e-10 * abs(float(ll)) + TOL_FACTOR * spread + 8 * abs(alg - float(ll))
         if not np.isfinite(tol):
             tol = float("inf")
         out = dict(ll=float(ll), tol=float(tol), tol_bound=float(tol_bound), spread=float(spread),
